@@ -15,7 +15,7 @@ ID = "C13"
 LEVEL = "exploration"
 TECHNIQUE = "exhaustive enumeration of facade method x command set x every subset of optional keyword arguments x device-provided buffer contents over a recording device; call count, CDB (independent spec decoder), buffer identity and decode-after-execute ordering are checked on every call"
 RULE = ("38 facade methods x every command set whose table offers the command x every subset of the optional keyword arguments (from "
-        "inspect.signature of the command class; each supplied argument takes 2 non-default values) x 2-3 well-formed device responses chosen to "
+        "inspect.signature of the command class; each supplied argument takes 2 non-default values) x caller buffers of kind bytearray / bytes / memoryview window x 2-3 well-formed device responses chosen to "
         "match the request; plus every method x set x 10 exception types raised by the device *after* it took the command (exactly one submission, the same exception object reaches the caller) (VPD page by page code, mode page by page code, PR IN data by service action, disc information by data type, READ CD "
         "sectors by selection bits). Non-trivial = at least one optional argument supplied or a non-SPC command set; distinct = distinct (method, "
         "set, argument dict, response).")
@@ -31,7 +31,7 @@ OPTVALS = {
     "prevent": [1, 3], "report": [1, 0x11], "priority": [1, 3], "data_format": [1, 1], "element_type": [2, 4], "voltag": [1, 1], "curdata": [0, 0],
     "dvcid": [1, 1], "est": [2, 4], "dap": [1, 1], "mcsb": [0x02, 0x1F], "c2ei": [1, 2], "scsb": [2, 4],
     "blocksize": [512, 4096], "extra_tl": [1, 2], "ck_cond": [1, 1], "device": [0xA0, 0xFF], "control": [1, 0xFF], "extend": [0, 0],
-    "data": ["BUF", "BUF"],
+    "data": ["BUF", "MV"],
     # PERSISTENT RESERVE OUT parameter items
     "reservation_key": [1, 0xFFFFFFFFFFFFFFFF], "service_action_reservation_key": [2, 0x8000000000000000], "aptpl": [1, 1], "all_tg_pt": [1, 1],
     # EXTENDED COPY
@@ -218,6 +218,10 @@ def run_case(case, obs=None):
     for k, v in kwj.items():
         if v == "BUF":
             v = bytearray(b"\x99" * 512)
+        elif v == "MV":
+            v = memoryview(bytearray(b"\x98" * 2048))[512:1024]        # a writable window into a larger caller-owned pool
+        elif v == "BYTES":
+            v = bytes(b"\x97" * 512)
         elif v == "INLINE":
             v = bytearray(b"inline")
         kw[k] = v
@@ -271,7 +275,7 @@ def run_case(case, obs=None):
     if err is None:
         if cmd.datain is not c["datain"] or cmd.dataout is not c["dataout"]:
             out.append(("%s/buffer_identity" % method, "%s: the buffers on the returned command are not the ones the device saw" % where))
-        if "data" in kw and isinstance(kw["data"], bytearray) and not (name == "WriteSame16" and allkw.get("ndob")):
+        if "data" in kw and len(kw["data"]) and not (name == "WriteSame16" and allkw.get("ndob")):
             tgt = cmd.datain if (name in S.ATA_LBA_BYTES and allkw.get("t_dir")) else cmd.dataout
             if tgt is not kw["data"]:
                 out.append(("%s/caller_data" % method, "%s: the caller's data buffer is not what the device received" % where))
@@ -337,6 +341,8 @@ def run_partition(part, tier, seed):
         extra_req = [{"data_type": d} for d in range(3)]
     elif method in ("modesense6", "modesense10"):
         extra_req = [{"page_code": p} for p in (0x0A, 0x1D, 0x02)]
+    elif method in ("write10", "write12", "write16", "writesame10", "writesame16"):
+        extra_req = [{}, {"data": "BYTES"}, {"data": "MV"}]
     else:
         extra_req = [{}]
     for st in F.sets_offering(method):
